@@ -46,6 +46,7 @@ FINDING_CLASSES = {1: "foreign-key-empty-mapping", 2: "foreign-key-in-discarded-
 POOL = list("abdepqruvwxy")
 SUBNAMES = ["fit", "test", "run"]
 CHANNELS = ["object", "string", "argvcfg", "envcfg"]
+NODEF_CHANNELS = ["object", "string"]
 
 
 # ------------------------------------------------------------------------------------------------------
@@ -310,6 +311,21 @@ def mutants(rng, p, cfg, tier):
         for k in [sub["dest"]] + [s for s, _ in sub["map"]]:
             c.pop(k, None)
         out.append(("no-subcommand", c))
+        # the subcommand is NAMED but its section is omitted / empty / emptied of its required keys
+        for s, sargs in sub["map"]:
+            base = copy.deepcopy(cfg)
+            for k in [x for x, _ in sub["map"]]:
+                base.pop(k, None)
+            base[sub["dest"]] = s
+            out.append(("named-no-section", copy.deepcopy(base)))
+            b2 = copy.deepcopy(base)
+            b2[s] = {}
+            out.append(("named-empty-section", b2))
+            others = [x for x, _ in sub["map"] if x != s]
+            if others:
+                b3 = copy.deepcopy(base)
+                b3[others[0]] = valid_fields(rng, dict(sub["map"])[others[0]], True)
+                out.append(("named-other-section", b3))
         # a foreign key in a second section (one that may be discarded)
         for s, sargs in sub["map"]:
             if s not in cfg:
@@ -338,20 +354,30 @@ def mutants(rng, p, cfg, tier):
 
 def generate(rng, tier):
     cases = []
-    nparsers = 60 if tier == "quick" else 250
+    nparsers = 60 if tier == "quick" else 180
     for _ in range(nparsers):
         g = Gen(rng)
         p = g.parser()
         cfg = valid_config(rng, p)
         ms = mutants(rng, p, cfg, tier)
         if tier == "quick" and len(ms) > 60:
-            ms = ms[:1] + rng.sample(ms[1:], 59)
+            keep = [m for m in ms[1:] if m[0].startswith("named-") or m[0] == "no-subcommand"]
+            rest = [m for m in ms[1:] if not (m[0].startswith("named-") or m[0] == "no-subcommand")]
+            ms = ms[:1] + keep + rng.sample(rest, max(0, 59 - len(keep)))
         for label, c in ms:
             chans = CHANNELS if (tier == "thorough" and label != "valid") else [rng.choice(CHANNELS)]
             if tier == "thorough" and len(ms) > 150:
                 chans = [rng.choice(CHANNELS)]
             for ch in chans:
-                cases.append({"parser": p, "cfg": c, "channel": ch, "label": label})
+                cases.append({"parser": p, "cfg": c, "channel": ch, "label": label, "defaults": True})
+            # the same configuration parsed WITHOUT merging defaults (object / config text only: --cfg and APP_CFG
+            # behave like one of the two or like defaults=True as far as subcommand sections are concerned)
+            if label != "valid":
+                nd = NODEF_CHANNELS if tier == "thorough" and len(ms) <= 150 else [rng.choice(NODEF_CHANNELS)]
+                if tier == "quick" and not p["sub"] and rng.random() < 0.5:
+                    nd = []
+                for ch in nd:
+                    cases.append({"parser": p, "cfg": c, "channel": ch, "label": label, "defaults": False})
     return cases
 
 
@@ -434,22 +460,29 @@ def g_obs(o):
     return "OOther"
 
 
+def g_mode(case):
+    if case.get("defaults", True):
+        return "MDefaults"
+    return {"object": "MNoDefObj", "string": "MNoDefStr"}[case["channel"]]
+
+
 def term(case, obs):
-    return "{| c_parser := %s; c_cfg := %s; c_obs := %s |}" % (g_parser(case["parser"]), g_cv(case["cfg"]), g_obs(obs))
+    return "{| c_mode := %s; c_parser := %s; c_cfg := %s; c_obs := %s |}" % (
+        g_mode(case), g_parser(case["parser"]), g_cv(case["cfg"]), g_obs(obs))
 
 
 def nontrivial_key(case, obs):
     if case.get("label") == "valid":
         return None
-    return json.dumps([case["parser"], case["cfg"], case["channel"]], sort_keys=True)
+    return json.dumps([case["parser"], case["cfg"], case["channel"], case.get("defaults", True)], sort_keys=True)
 
 
 def category(case, obs):
-    return "%s/%s/%s" % (case.get("label", "?"), case["channel"], obs["r"])
+    return "%s/%s%s/%s" % (case.get("label", "?"), case["channel"], "" if case.get("defaults", True) else "-nodefaults", obs["r"])
 
 
 def describe(case, obs):
-    return {"parser_declarations": case["parser"], "configuration": case["cfg"], "channel": case["channel"],
+    return {"parser_declarations": case["parser"], "configuration": case["cfg"], "channel": case["channel"], "defaults": case.get("defaults", True),
             "mutation": case.get("label"), "real_parser_answer": obs}
 
 
@@ -470,7 +503,7 @@ def shrink(case):
         except (KeyError, IndexError, TypeError):
             continue
         yield dict(case, cfg=c)
-    for ch in CHANNELS:
+    for ch in (CHANNELS if case.get("defaults", True) else NODEF_CHANNELS):
         if ch != case["channel"]:
             yield dict(case, channel=ch)
             break
